@@ -38,13 +38,14 @@ KF_Run(prop, why, o, r) ==
   THEN "C01-simple-symlist-with-number" ELSE "NEW"
 KF_Trace(prop, o, r, k) == IF prop = "C06" /\ NoDefaultChain(o, r) THEN "C06-else-chain-without-default" ELSE "NEW"
 KF_Balance(st, o, r, pc) == IF st \in {"badend", "underflow"} /\ NoDefaultChain(o, r) THEN "C06-else-chain-without-default" ELSE "NEW"
-(* C07-slice-cast-from-huge-negative-start: casting a slice whose range starts at -2147483647 to a char list iterates
+(* C07-huge-span-materialised: casting a slice whose range starts at -2147483647 to a char list iterates
    the whole numeric range item by item (data/src/simple.rs add_to_current_char_list `for i in start..=end`, and the
    corresponding BasicGarnishData conversion): one instruction runs for ~2^31 iterations; the worker's 25 s watchdog
    reports it as a hang.  Not a panic, but the step does not return in useful time. *)
+\* C07-huge-span-materialised: a cast (~#) of a slice whose range starts at -2147483647 or ends at 2147483647 does not return
+HugeSpan(t) == t.k = "slice" /\ (t.lo = <<"--", "2147483647">> \/ t.hi = <<"2147483647">>) /\ t.f[1] = "~#"
 KF_C07(o, r) ==
-  IF "outcome" \in DOMAIN o /\ o.outcome = "hang" /\ "input_case" \in DOMAIN o /\ "tag" \in DOMAIN o.input_case
-     /\ o.input_case.tag.k = "slice" /\ o.input_case.tag.lo = <<"--", "2147483647">> /\ o.input_case.tag.f[1] = "~#" /\ o.input_case.tag.f[4] = "\"a\""
-  THEN "C07-slice-cast-from-huge-negative-start" ELSE "NEW"
+  IF "outcome" \in DOMAIN o /\ o.outcome = "hang" /\ "input_case" \in DOMAIN o /\ "tag" \in DOMAIN o.input_case /\ HugeSpan(o.input_case.tag)
+  THEN "C07-huge-span-materialised" ELSE "NEW"
 KF_C08(o, run, why) == "NEW"
 ==============================================================================
